@@ -115,7 +115,7 @@ func ruleC17R1(c *Ctx) {
 			c.check(st >= 1, "C17.R1", fn, "dereference of the sink's slot pointer under the read lock", in.Pos(), "lock held", "a ReloadableSink touches its slot without the read lock: reload may be replacing it")
 		})
 	}
-	c.floor("C17.R1", "guarded accesses", n, 15)
+	c.floor("C17.R1", "guarded accesses", n, 10)
 	// every call on a downstream sink (a value loaded from a slot, in this function or returned by a helper of the
 	// run package that loads it) happens while the lock is held: the sink belongs to the orchestrator that a
 	// reload shuts down under the write lock
@@ -301,8 +301,7 @@ func ruleC17R2(c *Ctx) {
 		lp := loopOf(fn, s.Block())
 		ok := lp != nil && lp.bodyEntry != nil
 		if ok {
-			allowed := rootsOfCall(s)
-			q := &PathQ{P: c.P, Barrier: func(in ssa.Instruction) bool { return in == s.(ssa.Instruction) }, EdgeBlocked: edgeSet(emptinessGuardEdges(fn, allowed))}
+			q := &PathQ{P: c.P, Barrier: func(in ssa.Instruction) bool { return in == s.(ssa.Instruction) }, EdgeBlocked: edgeSet(emptinessGuardEdges(fn, rootsOfCall(s)))} // "for every non-nil slot": the nil test of the slot is the rule's own exception
 			hit, _ := q.Reach(Point{lp.bodyEntry, 0}, func(in ssa.Instruction) bool {
 				return in == lp.header.Instrs[0] || isReturn(in) || (!lp.blocks[in.Block()] && in == in.Block().Instrs[0])
 			})
